@@ -539,3 +539,205 @@ func govcPageMethod(t *testing.T, p *govcParams) govcOutcome {
 	}
 	return govcOutcome{detail: fmt.Sprintf("%s returned err=%v", state, callErr)}
 }
+
+// ---------------------------------------------------------------------------
+// scenario headers: set the transaction ids / validity of the two header slots
+// of a committed file as the model says and reopen it.
+//   witness: slot0(f).txid, slot1AsRead(f).txid, validPage(slot0(f)), validPage(slot1AsRead(f))
+// ---------------------------------------------------------------------------
+
+func init() { govcScenarios["headers"] = govcHeaders }
+
+func govcHeaders(t *testing.T, p *govcParams) govcOutcome {
+	tx0 := p.uintW("slot0(f).txid", 5)
+	tx1 := p.uintW("slot1AsRead(f).txid", 4)
+	v0 := p.boolW("validPage(slot0(f))", true)
+	v1 := p.boolW("validPage(slot1AsRead(f))", true)
+	mf := newGovcMemFile(8 << 20)
+	const ps = 4096
+	f, err := openWith(mf, Options{MaxSize: 1 << 20, PageSize: ps})
+	if err != nil {
+		return govcOutcome{skip: "create failed: " + err.Error()}
+	}
+	for i := 0; i < 2; i++ { // two commits so that both slots describe usable states
+		tx, _ := f.Begin()
+		pg, _ := tx.Alloc()
+		pg.SetBytes([]byte{byte('A' + i)})
+		tx.SetRoot(pg.ID())
+		if err := tx.Commit(); err != nil {
+			return govcOutcome{skip: "setup commit failed: " + err.Error()}
+		}
+	}
+	f.Close()
+	m0 := castMetaPage(mf.mem[0:])
+	m1 := castMetaPage(mf.mem[ps:])
+	m0.txid.Set(tx0)
+	m1.txid.Set(tx1)
+	m0.Finalize()
+	m1.Finalize()
+	if !v0 {
+		m0.checksum.Set(m0.checksum.Get() ^ 0x5a5a)
+	}
+	if !v1 {
+		m1.checksum.Set(m1.checksum.Get() ^ 0x5a5a)
+	}
+	root0, root1 := m0.root.Get(), m1.root.Get()
+	var f2 *File
+	var oerr error
+	var panicked bool
+	var pv interface{}
+	returned := govcWithin(10*time.Second, func() { panicked, pv = govcRecover(func() { f2, oerr = openWith(mf, Options{}) }) })
+	state := fmt.Sprintf("open with slot0(txid=%d valid=%v root=%d) slot1(txid=%d valid=%v root=%d)", tx0, v0, root0, tx1, v1, root1)
+	if !returned {
+		return govcOutcome{reproduced: true, detail: state + " did not return"}
+	}
+	if panicked {
+		if govcPanicMatches(p, pv) {
+			return govcOutcome{reproduced: true, detail: fmt.Sprintf("%s panicked: %v", state, pv)}
+		}
+		return govcOutcome{detail: fmt.Sprintf("%s panicked (%v), but that is not what this obligation is about", state, pv)}
+	}
+	want := -1
+	switch {
+	case v0 && v1:
+		if int64(tx0-tx1) > 0 {
+			want = 0
+		} else {
+			want = 1
+		}
+	case v0:
+		want = 0
+	case v1:
+		want = 1
+	}
+	if want == -1 {
+		if oerr == nil {
+			return govcOutcome{reproduced: true, detail: state + ": both headers invalid but open succeeded"}
+		}
+		return govcOutcome{detail: state + ": open failed as required: " + oerr.Error()}
+	}
+	if oerr != nil {
+		return govcOutcome{reproduced: true, detail: fmt.Sprintf("%s: open failed (%v) although slot %d is intact", state, oerr, want)}
+	}
+	defer f2.Close()
+	if f2.metaActive != want {
+		return govcOutcome{reproduced: true, detail: fmt.Sprintf("%s: slot %d became active, the newest intact header is slot %d", state, f2.metaActive, want)}
+	}
+	return govcOutcome{detail: fmt.Sprintf("%s: slot %d active as required", state, want)}
+}
+
+// ---------------------------------------------------------------------------
+// scenario commitfault: Commit with an injected I/O failure; checks what a
+// failing Commit left behind (published header slot, overwrite mapping,
+// allocator vs. header, lock state).
+// ---------------------------------------------------------------------------
+
+func init() { govcScenarios["commitfault"] = govcCommitFault }
+
+func govcCommitFault(t *testing.T, p *govcParams) govcOutcome {
+	type attempt struct {
+		op     string
+		shrink bool
+	}
+	var attempts []attempt
+	for _, op := range []string{"Truncate", "MMap", "Sync", "WriteAt", "Size"} {
+		attempts = append(attempts, attempt{op, true}, attempt{op, false})
+	}
+	for _, at := range attempts {
+		for k := 1; k <= 8; k++ {
+			var detail string
+			bad := false
+			var mf *govcMemFile
+			work := func() {
+				mf = newGovcMemFile(8 << 20)
+				var f *File
+				var err error
+				if at.shrink {
+					f0, err0 := openWith(mf, Options{MaxSize: 2 << 20, PageSize: 1024, Prealloc: true})
+					if err0 != nil {
+						return
+					}
+					f0.Close()
+					f, err = openWith(mf, Options{MaxSize: 1 << 20, Flags: FlagUpdMaxSize})
+				} else {
+					f, err = openWith(mf, Options{MaxSize: 4 << 20, PageSize: 1024})
+				}
+				if err != nil {
+					return
+				}
+				mf.calls[at.op] = 0
+				mf.failAt[at.op] = k
+				for round := 0; round < 3; round++ {
+					tx, err := f.Begin()
+					if err != nil {
+						return
+					}
+					pages, err := tx.AllocN(90)
+					if err == nil {
+						for _, pg := range pages {
+							pg.SetBytes(make([]byte, 1024))
+						}
+					}
+					activeBefore := f.metaActive
+					mappingBefore := fmt.Sprint(f.wal.mapping)
+					cerr := tx.Commit()
+					tx.Close()
+					if cerr == nil {
+						continue
+					}
+					state := fmt.Sprintf("Commit failed (%v) with %s#%d failing (shrunk file: %v)", cerr, at.op, k, at.shrink)
+					published := f.metaActive != activeBefore || fmt.Sprint(f.wal.mapping) != mappingBefore
+					switch p.Label {
+					case "nothing-published-on-error", "nothing-published-on-late-map-failure":
+						if published {
+							meta := f.getMetaPage()
+							bad = true
+							detail = fmt.Sprintf("%s, yet the new header slot %d is active (header dataEnd=%d, allocator dataEnd=%d after rollback)",
+								state, f.metaActive, meta.dataEndMarker.Get(), f.allocator.data.endMarker)
+						}
+					case "commit-locks-released":
+						if f.locks.pendingSet {
+							bad = true
+							detail = state + " and left the pending lock set"
+						}
+					}
+					if bad {
+						return
+					}
+					// readers must be able to begin after a failed commit
+					if p.Label == "commit-locks-released" {
+						ok := govcWithin(2*time.Second, func() {
+							if rtx, err := f.BeginReadonly(); err == nil {
+								rtx.Close()
+							}
+						})
+						if !ok {
+							bad = true
+							detail = state + "; a later BeginReadonly blocked"
+							return
+						}
+					}
+				}
+			}
+			var panicked bool
+			var pv interface{}
+			returned := govcWithin(10*time.Second, func() { panicked, pv = govcRecover(work) })
+			if !returned {
+				if strings.Contains(p.Label, "lock") || p.Kind == "safety" {
+					return govcOutcome{reproduced: true, detail: fmt.Sprintf("workload hung with %s#%d failing", at.op, k)}
+				}
+				continue
+			}
+			if panicked {
+				if govcPanicMatches(p, pv) {
+					return govcOutcome{reproduced: true, detail: fmt.Sprintf("workload panicked with %s#%d failing: %v", at.op, k, pv)}
+				}
+				continue
+			}
+			if bad {
+				return govcOutcome{reproduced: true, detail: detail}
+			}
+		}
+	}
+	return govcOutcome{detail: "no injected failure (Truncate/MMap/Sync/WriteAt/Size, call 1..8, grown and shrunk files) left the forbidden state"}
+}
